@@ -18,8 +18,10 @@ Definition corr (th : bthread) : Z :=
   match t_op th with
   | Some (BAlloc g s, 2%nat) => s
   | Some (BAllocPre g s, 3%nat) => s
-  | Some (BResize g n, 3%nat) => n - slot_size (t_loc th) g
-  | Some (BResize g n, 4%nat) => - (slot_size (t_loc th) g - n)
+  | Some (BResize g n, 2%nat) => n - slot_size (t_loc th) g
+  | Some (BResize g n, 3%nat) => - (slot_size (t_loc th) g - n)
+  | Some (BResizePre g n, 3%nat) => n - slot_size (t_loc th) g
+  | Some (BResizePre g n, 4%nat) => - (slot_size (t_loc th) g - n)
   | Some (BRelease g, 1%nat) => - slot_size (t_loc th) g
   | _ => 0
   end.
@@ -105,7 +107,7 @@ Proof.
   { unfold slot_used, slot_size. intros g. destruct (aget g (mem tl)); auto; discriminate. }
   assert (LD : forall l todo o, slot_free_ok (load l todo o)) by apply slot_free_load.
   destruct top as [[op pc]|]; [|bcrunch; bfin AD].
-  destruct op as [g sz|g sz|g n|g].
+  destruct op as [g sz|g sz|g n|g n|g].
   - destruct pc as [|[|[|pc]]]; simpl in H.
     + destruct (slot_used tl g) eqn:U; [bcrunch; bfin AD|]. apply SU in U.
       destruct (b_alloc s + sz <=? b_hard s); bcrunch; bfin AD.
@@ -117,6 +119,14 @@ Proof.
       destruct (b_alloc s + sz >? b_hard s); bcrunch; bfin AD.
     + destruct (b_alloc s + sz >? b_hard s); bcrunch; bfin AD.
     + bcrunch; bfin AD.
+    + bcrunch. bfin AD.
+    + destruct pc; simpl in H; bcrunch; bfin AD.
+  - destruct pc as [|[|[|[|pc]]]]; simpl in H.
+    + destruct (slot_used tl g); simpl in H; [|bcrunch; bfin AD].
+      destruct (n >? slot_size tl g); [destruct (b_alloc s + (n - slot_size tl g) <=? b_hard s); bcrunch; bfin AD|].
+      destruct (n <? slot_size tl g); bcrunch; bfin AD.
+    + destruct (b_alloc s + (n - slot_size tl g) <=? b_hard s); bcrunch; bfin AD.
+    + bcrunch. bfin AD.
     + bcrunch. bfin AD.
     + destruct pc; simpl in H; bcrunch; bfin AD.
   - destruct pc as [|[|[|[|[|pc]]]]]; simpl in H.
@@ -213,7 +223,7 @@ Proof.
   pose proof (slot_size_nonneg tl) as SS.
   assert (LD : forall l o, nonneg_mem (mem l) -> thread_safe (load l ttodo o)) by (intros; apply thread_safe_load; auto).
   destruct top as [[op pc]|]; [|bcrunch; unfold thread_safe; simpl; auto].
-  destruct op as [g sz|g sz|g n|g]; simpl in So; try discriminate.
+  destruct op as [g sz|g sz|g n|g n|g]; simpl in So; try discriminate.
   - apply Z.leb_le in So.
     destruct pc as [|[|[|pc]]]; simpl in H.
     + destruct (slot_used tl g); [bcrunch; auto|].
@@ -221,6 +231,25 @@ Proof.
         (split; [auto; lia|unfold thread_safe; simpl; auto using Z.leb_le]); repeat split; auto; apply Z.leb_le; auto.
     + destruct (b_alloc s + sz <=? b_hard s) eqn:C; bcrunch; simpl; auto.
       apply Z.leb_le in C. split; [lia|]. unfold thread_safe; simpl. repeat split; auto. apply Z.leb_le; auto.
+    + bcrunch. simpl. split; auto. apply LD. simpl. apply nonneg_aset; auto.
+    + destruct pc; simpl in H; bcrunch; simpl; (split; [auto|unfold thread_safe; simpl; repeat split; auto; apply Z.leb_le; auto]).
+  - (* resize after the repair of C20-K3 *)
+    apply Z.leb_le in So. specialize (SS g Sm).
+    assert (TS : thread_safe (mkTh (Some (BResize g n, 1%nat)) tl ttodo tout) /\
+                 thread_safe (mkTh (Some (BResize g n, 2%nat)) tl ttodo tout) /\
+                 thread_safe (mkTh (Some (BResize g n, 3%nat)) tl ttodo tout)).
+    { unfold thread_safe; simpl. repeat split; auto; apply Z.leb_le; auto. }
+    destruct TS as (TS1 & TS2 & TS3).
+    destruct pc as [|[|[|[|pc]]]]; simpl in H.
+    + destruct (slot_used tl g); simpl in H; [|bcrunch; auto].
+      destruct (n >? slot_size tl g) eqn:G.
+      * destruct (b_alloc s + (n - slot_size tl g) <=? b_hard s) eqn:C; bcrunch; simpl; auto.
+        apply Z.leb_le in C. split; [lia|auto].
+      * destruct (n <? slot_size tl g) eqn:L; bcrunch; simpl; auto.
+        apply Z.ltb_lt in L. split; [lia|auto].
+    + destruct (b_alloc s + (n - slot_size tl g) <=? b_hard s) eqn:C; bcrunch; simpl; auto.
+      apply Z.leb_le in C. split; [lia|auto].
+    + bcrunch. simpl. split; auto. apply LD. simpl. apply nonneg_aset; auto.
     + bcrunch. simpl. split; auto. apply LD. simpl. apply nonneg_aset; auto.
     + destruct pc; simpl in H; bcrunch; simpl; (split; [auto|unfold thread_safe; simpl; repeat split; auto; apply Z.leb_le; auto]).
   - destruct pc as [|[|pc]]; simpl in H.
@@ -267,8 +296,9 @@ Proof.
     - inversion Sm; subst. simpl in *. specialize (MS _ H2). destruct (k =? g); [lia|]. specialize (IHt H2). lia. }
   specialize (MS _ Sm).
   destruct top as [[op pc]|]; [|lia].
-  destruct op as [g sz|g sz|g n|g]; simpl in So; try discriminate.
+  destruct op as [g sz|g sz|g n|g n|g]; simpl in So; try discriminate.
   - apply Z.leb_le in So. destruct pc as [|[|[|pc]]]; lia.
+  - apply Z.leb_le in So. specialize (GE g). destruct pc as [|[|[|[|pc]]]]; lia.
   - specialize (GE g). destruct pc as [|[|pc]]; lia.
 Qed.
 
@@ -295,10 +325,10 @@ Lemma buffer_over_limit_pre_refuted_l :
     b_alloc (sh (brun sched (binit hard progs))) > hard.
 Proof. exists 10, [[BAllocPre 0 6]; [BAllocPre 1 6]], [0; 1; 0; 1]%nat. vm_compute. repeat split; congruence. Qed.
 
-Lemma buffer_resize_over_limit_refuted_l :
-  exists hard progs sched, 0 <= hard /\ k_buf progs = true /\
-    b_alloc (sh (brun sched (binit hard progs))) > hard.
+Lemma buffer_resize_over_limit_pre_refuted_l :
+  exists hard progs sched, 0 <= hard /\ progs = [[BAlloc 0 1; BResizePre 0 6]; [BAlloc 1 1; BResizePre 1 6]] /\
+    k_buf progs = true /\ b_alloc (sh (brun sched (binit hard progs))) > hard.
 Proof.
-  exists 10, [[BAlloc 0 1; BResize 0 6]; [BAlloc 1 1; BResize 1 6]], [0; 0; 1; 1; 0; 1; 0; 1]%nat.
+  exists 10, [[BAlloc 0 1; BResizePre 0 6]; [BAlloc 1 1; BResizePre 1 6]], [0; 0; 1; 1; 0; 1; 0; 1]%nat.
   vm_compute. repeat split; congruence.
 Qed.
